@@ -8,7 +8,7 @@ from ..core import Ctx, RuleResult, finding, short, walk_no_nested
 from ..model import AnalysisError, norm
 from ..rules import canv, fresh, inv
 from ..rules.util import callee_name, calls_in, cfg_of, dotted, nodes_where, owner_map, renamed
-from ..tables import CANV_EXCEPTIONS, INV_EXCEPTIONS
+from ..tables import CANV_EXCEPTIONS, INV_EXCEPTIONS, INV_RENDER_EXCEPTIONS
 
 EXPLANATION = (
     "Decided (necessary structural conditions of C06, for every widget class and every path): "
@@ -21,7 +21,7 @@ EXPLANATION = (
     "(5) CanvasCache.store registers the widget as dependant of every dependency before recording the canvas and refuses to record when a dependency is uncached; "
     "CanvasCache.invalidate drops the widget's entry and recurses into every saved dependant."
     " Added after seed round 3: (1e) INV-LAYER - state switched inside a render closure and read by an inherited render() that is cached without the focus flag (Text.ignore_focus under Edit) changes only together with _invalidate(); (6) CanvasCache.cleanup drops a widget's _deps entry under exactly the conditions under which it drops its _widgets entry; (7) a size-keyed layout memo is not used in the cases in which the memoised computation consults a child (Columns with PACK columns)."
-    " Round 4 triage: (8) HIDDEN-DEP - a render() that can finish without rendering a child it consulted for the layout (Pile item with 0 rows, Columns column without width, trimmed-away Frame header/footer, Overlay over an empty bottom canvas) declares the dependency with set_depends() naming that child's source on the skipping path."
+    " Round 4 triage: (8) HIDDEN-DEP - a render() that can finish without rendering a child it consulted for the layout (Pile item with 0 rows, Columns column without width, trimmed-away Frame header/footer, Overlay over an empty bottom canvas) declares the dependency with set_depends() naming that child's source on the skipping path; (9) INV-RENDER - a render-path method that rewrites state render() reads (Scrollable's position clamped for the size at hand, Edit's view shift, ListBox's offset) reaches _invalidate() - directly, through all its render-path callers, or by the `if self.x != saved: self._invalidate()` idiom - so canvases cached for other sizes do not outlive the value they were rendered from."
 )
 NOT_DECIDED = (
     "That cached and fresh renderings are equal for all widget trees and histories (needs the value semantics of rendering); that the cascade reaches the right widgets "
@@ -442,6 +442,7 @@ def run(ctx: Ctx):
         rule_cleanup(ctx),
         rule_memo_children(ctx),
         canv.run_hidden_dep(p, "C06.8", floor=6),
+        inv.run_inv_render_write(p, "C06.9", floor=40, exceptions=INV_RENDER_EXCEPTIONS),
     ]
     return out
 
@@ -460,6 +461,9 @@ MUTANTS = [
     Mut("edit-cursor-coords-flag-without-invalidate", "urwid/widget/edit.py", "Edit.get_cursor_coords", "        if not self._shift_view_to_cursor:\n            self._shift_view_to_cursor = True\n            self._invalidate()\n", "        self._shift_view_to_cursor = True\n", "INV-LAYER|widget.edit.Edit.get_cursor_coords"),
     Mut("cleanup-drops-deps-early", "urwid/canvas.py", "CanvasCache.cleanup", "        if not sizes:\n            with contextlib.suppress(KeyError):\n                del cls._widgets[widget]\n                del cls._deps[widget]", "        cls._deps.pop(widget, None)\n        if not sizes:\n            with contextlib.suppress(KeyError):\n                del cls._widgets[widget]", "PAIR|canvas.CanvasCache.cleanup"),
     Mut("twin-cleanup-pop-form", "urwid/canvas.py", "CanvasCache.cleanup", "            with contextlib.suppress(KeyError):\n                del cls._widgets[widget]\n                del cls._deps[widget]", "            cls._widgets.pop(widget, None)\n            cls._deps.pop(widget, None)", twin=True),
+    Mut("scrollable-position-moved-without-invalidate", "urwid/widget/scrollable.py", "Scrollable._adjust_trim_top", "        if self._trim_top != old_trim_top:\n            # canvases cached for other sizes show the old position\n            self._invalidate()\n", "", "INV-RENDER|widget.scrollable.Scrollable._adjust_trim_top"),
+    Mut("scrollable-reset-without-invalidate", "urwid/widget/scrollable.py", "Scrollable._adjust_trim_top", "            if self._trim_top != old_trim_top:\n                # canvases cached for other sizes show the old position\n                self._invalidate()\n            return", "            return", "INV-RENDER|widget.scrollable.Scrollable._adjust_trim_top"),
+    Mut("listbox-focus-complete-without-invalidate", "urwid/widget/listbox.py", "ListBox._set_focus_complete", "        (maxcol, maxrow) = size\n        self._invalidate()\n", "        (maxcol, maxrow) = size\n", "INV-RENDER|widget.listbox.ListBox"),
     Mut("pile-hidden-item-no-depends", "urwid/widget/pile.py", "Pile.render", "            out.set_depends([w for w, _ in self.contents])\n", "            pass\n", "HIDDEN-DEP|widget.pile.Pile.render"),
     Mut("columns-hidden-column-no-depends", "urwid/widget/columns.py", "Columns.render", "            canvas.set_depends([w for w, _ in self.contents])\n", "            pass\n", "HIDDEN-DEP|widget.columns.Columns.render"),
     Mut("frame-depends-body-only", "urwid/widget/frame.py", "Frame.render", "canvas.set_depends([w for w in (self.header, self.body, self.footer) if w is not None])", "canvas.set_depends([self.body])", "HIDDEN-DEP|widget.frame.Frame.render"),
